@@ -244,6 +244,8 @@ def classify_router(case):
         labels.append('identical_rules')
     if len(_shared_group(case)) >= 2:
         labels.append('one_callable_under_several_rules')
+    if len(case['rules']) % 2 == 0:
+        labels.append('addmatch_acknowledged_late_and_out_of_order(client)')
     if any(r.get('refuse_first') for r in case['rules']):
         labels.append('addmatch_refused_once')
     nt = False
@@ -446,12 +448,25 @@ def run_client(case):
     refused_once = set()
     group = _shared_group(case, raises_ok=True)
     shared = _Subscriber(lambda m: hits.append('S'))
+    late_acks = len(case['rules']) % 2 == 0
+    waiting = []
+
+    def flush():
+        # the outstanding AddMatch calls are answered, the latest first
+        while waiting:
+            idx, serial, text, res, opi = waiting.pop()
+            N.deliver(rig.conn, R.encode_message(2, 500 + opi, {5: serial}))
+            if len(res) != 1 or not isinstance(res[0], int):
+                out.append(Disc('client.addmatch-result', repr(res)))
+                return False
+            active[idx] = (res[0], text)
+        return True
     try:
         rig.sent_messages()
         for opi, op in enumerate(case['ops']):
             if op[0] == 'add':
                 idx = op[1] % len(rules)
-                if idx in active:
+                if idx in active or any(w[0] == idx for w in waiting):
                     continue
                 r = rules[idx]
 
@@ -494,11 +509,20 @@ def run_client(case):
                         out.append(Disc('client.addmatch-refused-but-result', repr(res)))
                         break
                     continue
+                if late_acks:
+                    # the bus has not answered yet: replies are matched by reply serial, not by arrival order, and a bus (or
+                    # a proxy in front of it) may answer a later AddMatch first
+                    waiting.append((idx, sent[0]['serial'], text, res, opi))
+                    if len(waiting) >= 3 and not flush():
+                        break
+                    continue
                 N.deliver(rig.conn, R.encode_message(2, 500 + opi, {5: sent[0]['serial']}))
                 if len(res) != 1 or not isinstance(res[0], int):
                     out.append(Disc('client.addmatch-result', repr(res)))
                     break
                 active[idx] = (res[0], text)
+            elif not flush():
+                break
             elif op[0] == 'remove':
                 if not active:
                     continue
